@@ -3,6 +3,8 @@ import Afkak.ProducerR
 import Afkak.Monitor.C01
 import Afkak.Monitor.C09
 import Afkak.Monitor.C19
+import Afkak.Monitor.C19Idle
+import Afkak.Monitor.C01Dropped
 import Driver.Util
 /-! Text codec of the Producer line protocol: events, observations, state snapshots (both directions:
 the model prints them, and implementation traces are parsed back for the monitors). -/
@@ -283,6 +285,8 @@ def runMonitor (cfg : Cfg) (tr : List Step) (m : String) : String :=
     else if m == "c19-detach" then some (Afkak.Monitor.C19.detach cfg tr)
     else if m == "c19-stop" then some (Afkak.Monitor.C19.stop cfg tr)
     else if m == "c19-schedule" then some (Afkak.Monitor.C19.schedule cfg tr)
+    else if m == "c01-dropped" then some (Afkak.Monitor.C01.neverDropped cfg tr)
+    else if m == "c19-idleq" then some (Afkak.Monitor.C19.neverIdleOver cfg tr)
     else none
   match v with
   | some true => "ok"
